@@ -53,7 +53,7 @@ void ascon_add_bytes
     uint64_t value;
     unsigned posn, shift, ofs, len;
     ofs = offset & 7U;
-    if (ofs != 0U) {
+    if (ofs != 0U && size != 0U) {
         shift = (7U - ofs) * 8U;
         len = 8U - ofs;
         value = 0;
@@ -87,7 +87,7 @@ void ascon_overwrite_bytes
     uint64_t value;
     unsigned posn, shift, ofs, len;
     ofs = offset & 7U;
-    if (ofs != 0U) {
+    if (ofs != 0U && size != 0U) {
         ascon_squeeze_word64(state, value, offset / 8U);
         ofs = offset & 7U;
         shift = (7U - ofs) * 8U;
@@ -153,7 +153,7 @@ void ascon_extract_bytes
     uint64_t value;
     unsigned posn, shift, ofs, len;
     ofs = offset & 7U;
-    if (ofs != 0U) {
+    if (ofs != 0U && size != 0U) {
         ascon_squeeze_word64(state, value, offset / 8U);
         shift = (7U - ofs) * 8U;
         len = 8U - ofs;
@@ -186,7 +186,7 @@ void ascon_extract_and_add_bytes
     uint64_t value;
     unsigned posn, shift, ofs, len;
     ofs = offset & 7U;
-    if (ofs != 0U) {
+    if (ofs != 0U && size != 0U) {
         ascon_squeeze_word64(state, value, offset / 8U);
         shift = (7U - ofs) * 8U;
         len = 8U - ofs;
@@ -222,7 +222,7 @@ void ascon_extract_and_overwrite_bytes
     unsigned posn, shift, ofs, len;
     uint8_t in;
     ofs = offset & 7U;
-    if (ofs != 0U) {
+    if (ofs != 0U && size != 0U) {
         ascon_squeeze_word64(state, value, offset / 8U);
         shift = (7U - ofs) * 8U;
         len = 8U - ofs;
